@@ -1024,7 +1024,20 @@ func runInBubble(hcfg harness.Config, idx int, tp *tape.Tape, dir string, res *h
 	if w.cfg.deafClient && w.cfg.profile == "C45" {
 		deafAt = 10 + tp.Draw(150, "cfg.deafat")
 	}
-	notFrozen := func(k string) bool { return k != frozen && k != deaf }
+	// The deaf tab's handler may be a slow node as well (holdThrough runs): its write loop does
+	// not get the CPU from the moment the tab goes deaf until close() has run as far as it
+	// gets without it (close() sits at none of its own scheduling points any more).
+	deafName, closeParked := "", false
+	stalledWL := func(k string) bool {
+		if deafName == "" || !w.cfg.holdThrough {
+			return false
+		}
+		if k != "wl.wait:"+deafName && k != "wl.getres:"+deafName && k != "lk:watcher.getRes:"+deafName {
+			return false
+		}
+		return !w.closeBegun.Load() || closeParked
+	}
+	notFrozen := func(k string) bool { return k != frozen && k != deaf && !stalledWL(k) }
 
 	// ---- phase 1: workload
 	signalStep := -1
@@ -1088,6 +1101,7 @@ func runInBubble(hcfg harness.Config, idx int, tp *tape.Tape, dir string, res *h
 			}
 			if len(cands) > 0 {
 				deaf = cands[tp.Draw(len(cands), "deaf.which")]
+				deafName = strings.TrimPrefix(deaf, "browser:")
 				deafSince, deafFor = sim.Now(), 8*time.Second+time.Duration(tp.Draw(60, "deaf.seconds"))*time.Second
 				deafAt = -1
 				w.fault("client_stopped_reading_for_a_long_time")
@@ -1147,6 +1161,12 @@ func runInBubble(hcfg harness.Config, idx int, tp *tape.Tape, dir string, res *h
 			// move while the simulator is not itself holding a server goroutine parked
 			// (simulated clients that stall are fine: that is their fault, not ours).
 			allowTime = !w.systemParked()
+		}
+		closeParked = false
+		for _, k := range sim.ParkedKeys() {
+			if strings.HasPrefix(k, "close") {
+				closeParked = true
+			}
 		}
 		if !sim.Step(allowTime, notFrozen) {
 			sim.Advance(time.Second)
